@@ -728,3 +728,66 @@ func c06BoundaryLineOnly(cl *Classifier, r0 Results, e c06Edit) bool {
 	}
 	return false
 }
+
+// c06History: the spelling / http(s) clause on a classifier with a HISTORY. A document holding
+// every canonical spelling (and an http URL); for every pair and direction the text with that
+// one word respelled must match exactly like the original - on a fresh classifier, after the
+// respelled text went through Normalize on the same classifier, and after a text holding ALL
+// variant spellings did (Normalize interns the words it sees in the classifier's dictionary).
+func init() { vRegister("c06_history", c06History) }
+
+func c06History(c *vrep.Ctx) {
+	pairs := append(c06SpellingPairs(), [2]string{"https://example.org/terms", "http://example.org/terms"})
+	var canon, variants []string
+	for _, p := range pairs {
+		canon = append(canon, p[1])
+		variants = append(variants, p[0])
+	}
+	// the document: the canonical words in sentences of plain words
+	var dw []string
+	for i, w := range canon {
+		dw = append(dw, "the", w, "of", vFillerWord(i), "shall")
+	}
+	doc := strings.Join(dw, " ")
+	allVariants := strings.Join(variants, " and ")
+	c.R.Rule = fmt.Sprintf("a document with all %d canonical spellings and an http URL; for every pair and both directions the respelled text must match like the original on {a fresh classifier, the same classifier after Normalize(respelled text), after Normalize(text with all variant spellings), after Match of it}; non-trivial = comparisons", len(pairs))
+	mk := func() *Classifier {
+		cl := NewClassifier(0.8)
+		cl.AddContent("License", "Canon", "license.txt", []byte(doc))
+		return cl
+	}
+	base := []byte("zqaxav\n" + doc + "\nzqbxav\n")
+	want := vFmt(mk().Match(base))
+	if !strings.Contains(want, "Canon") {
+		panic("c06_history is vacuous: the document does not match itself")
+	}
+	body := func(r *vx.Run) {
+		pi := r.Choose(len(pairs), "pair")
+		hist := r.Choose(4, "history")
+		in := []byte(strings.Replace(string(base), " "+pairs[pi][1]+" ", " "+pairs[pi][0]+" ", 1))
+		cl := mk()
+		switch hist {
+		case 1:
+			cl.Normalize(in)
+		case 2:
+			cl.Normalize([]byte(allVariants))
+		case 3:
+			cl.Match([]byte(allVariants + " " + string(in)))
+		}
+		got := vFmt(cl.Match(in))
+		msg := ""
+		if got != want {
+			msg = fmt.Sprintf("respelled text matches as %s, the original as %s", got, want)
+		} else if g2 := vFmt(cl.Match(base)); g2 != want {
+			msg = fmt.Sprintf("after the history the ORIGINAL text matches as %s, before it as %s", g2, want)
+		}
+		r.Note = map[string]interface{}{"id": fmt.Sprintf("%s->%s history=%s", pairs[pi][1], pairs[pi][0], []string{"none", "Normalize(respelled)", "Normalize(all variants)", "Match(all variants)"}[hist]), "msg": msg}
+	}
+	c.Run(c.Explorer(0), body, func(r *vx.Run) {
+		id := r.Note["id"].(string)
+		c.Nontrivial(id)
+		if m := r.Note["msg"].(string); m != "" {
+			c.Violate("c06_history:"+strings.ReplaceAll(id, " ", "_"), id+": "+m, r, m)
+		}
+	})
+}
